@@ -722,9 +722,13 @@ namespace bloch::runtime {
             auto fit = m_env[i].find(name);
             if (fit != m_env[i].end()) {
                 Value newVal = widenToSlot(v, fit->second.value.type);
-                if (fit->second.value.type == Value::Type::Object &&
-                    newVal.type == Value::Type::Object && newVal.objectValue &&
-                    !fit->second.value.className.empty()) {
+                // whatever is stored (another object, null, an object after 'destroy'), the
+                // variable keeps the class it was declared with: overloads are chosen from it
+                if (!fit->second.declaredClass.empty()) {
+                    newVal = stampStatic(newVal, fit->second.declaredClass);
+                } else if (fit->second.value.type == Value::Type::Object &&
+                           newVal.type == Value::Type::Object &&
+                           !fit->second.value.className.empty()) {
                     newVal.className = fit->second.value.className;
                 }
                 fit->second.value = newVal;
@@ -737,25 +741,16 @@ namespace bloch::runtime {
             if (!m_inStaticContext && thisObj) {
                 RuntimeField* field = findInstanceField(m_currentClassCtx, name);
                 if (field && field->offset < thisObj->fields.size()) {
-                    Value newVal = widenToSlot(v, field->type.kind);
-                    const Value& existing = thisObj->fields[field->offset];
-                    if (existing.type == Value::Type::Object &&
-                        newVal.type == Value::Type::Object && newVal.objectValue &&
-                        !existing.className.empty()) {
-                        newVal.className = existing.className;
-                    }
+                    Value newVal =
+                        stampStatic(widenToSlot(v, field->type.kind), field->type.className);
                     thisObj->fields[field->offset] = newVal;
                     return;
                 }
             }
             auto [field, owner] = findStaticFieldWithOwner(m_currentClassCtx, name);
             if (field && owner && field->offset < owner->staticStorage.size()) {
-                Value newVal = widenToSlot(v, field->type.kind);
-                const Value& existing = owner->staticStorage[field->offset];
-                if (existing.type == Value::Type::Object && newVal.type == Value::Type::Object &&
-                    newVal.objectValue && !existing.className.empty()) {
-                    newVal.className = existing.className;
-                }
+                Value newVal =
+                    stampStatic(widenToSlot(v, field->type.kind), field->type.className);
                 owner->staticStorage[field->offset] = newVal;
                 return;
             }
@@ -1694,7 +1689,7 @@ namespace bloch::runtime {
             m_env.back()[ctor->params[i]->name] = {
                 stampStatic(widenToSlot(args[i], declaredKind(ctor->params[i]->type.get())),
                             declaredClassName(ctor->params[i]->type.get())),
-                false, true};
+                false, true, declaredClassName(ctor->params[i]->type.get())};
         }
 
         // Detect an explicit super(...) call as the first statement.
@@ -1842,7 +1837,7 @@ namespace bloch::runtime {
             m_env.back()[method->decl->params[i]->name] = {
                 stampStatic(widenToSlot(args[i], declaredKind(method->decl->params[i]->type.get())),
                             declaredClassName(method->decl->params[i]->type.get())),
-                false, true};
+                false, true, declaredClassName(method->decl->params[i]->type.get())};
         }
         bool prevReturn = m_hasReturn;
         m_hasReturn = false;
@@ -1877,7 +1872,7 @@ namespace bloch::runtime {
             m_env.back()[fn->params[i]->name] = {
                 stampStatic(widenToSlot(args[i], declaredKind(fn->params[i]->type.get())),
                             declaredClassName(fn->params[i]->type.get())),
-                false, true};
+                false, true, declaredClassName(fn->params[i]->type.get())};
         }
         bool prevReturn = m_hasReturn;
         m_returnValue = {};
@@ -2155,7 +2150,8 @@ namespace bloch::runtime {
             }
             m_env.back()[var->name] = {stampStatic(widenToSlot(v, declaredKind(var->varType.get())),
                                                    declaredClassName(var->varType.get())),
-                                       var->isTracked, initialized};
+                                       var->isTracked, initialized,
+                                       declaredClassName(var->varType.get())};
         } else if (auto block = dynamic_cast<BlockStatement*>(s)) {
             beginScope();
             for (auto& st : block->statements) {
